@@ -103,7 +103,10 @@ Definition on_error (s : signal) (payload : list Z) (e : err) : list Z :=
 
 Inductive result := ROk | RErr (e : err).
 
-Record attempt := { a_dur : Z; a_res : result }.
+(* one scripted outcome of the exporter function: it answers a_res after a_dur.  a_ignores_ctx: a backend call
+   that does NOT abort when its context ends (a slow client that ignores cancellation): the answer still arrives
+   after a_dur, however late.  Otherwise the call honours its context (see `effective`). *)
+Record attempt := { a_dur : Z; a_res : result; a_ignores_ctx : bool }.
 
 (* ---- configuration ---------------------------------------------------------------------------- *)
 Record config := {
@@ -178,13 +181,17 @@ Definition att_done (sc : scenario) (s : Z) : option Z := omin (att_deadline sc 
 (* instant at which the caller's context (the one retrySender selects on) is done *)
 Definition ctx_done (sc : scenario) : option Z := omin (sc_deadline sc) (sc_cancel sc).
 
-(* the scripted backend honours its context: it answers after a_dur unless the context ends
-   first, in which case it returns the context's error (a plain, non-permanent error) then *)
+(* what next.Send returns to the retry loop and when.  timeoutSender.Send is `return ts.next.Send(tCtx, req)`: it
+   only derives the attempt's context and hands the exporter's answer back UNCHANGED, also when that answer comes
+   after the timeout has fired.  A backend that honours its context answers after a_dur unless the context ends
+   first, in which case it returns the context's error (a plain, non-permanent error) at that instant; a backend
+   that ignores its context answers a_res after a_dur whatever happened to the context. *)
 Definition effective (sc : scenario) (s : Z) (a : attempt) : Z * result :=
-  match att_done sc s with
-  | Some c => if c <? s + a_dur a then (Z.max c s, RErr EBase) else (s + a_dur a, a_res a)
-  | None => (s + a_dur a, a_res a)
-  end.
+  if a_ignores_ctx a then (s + a_dur a, a_res a)
+  else match att_done sc s with
+       | Some c => if c <? s + a_dur a then (Z.max c s, RErr EBase) else (s + a_dur a, a_res a)
+       | None => (s + a_dur a, a_res a)
+       end.
 
 (* select { case <-ctx.Done(): ; case <-rs.stopCh: ; case <-time.After(delay): } entered at e.
    Each branch becomes ready at an instant; the earliest wins; among branches ready at the same
